@@ -456,3 +456,86 @@ Theorem judge_accepts_model_refuted :
   /\ judge rf_regs rf_W rf_ri (run_request (spec_params_b true) rf_W rf_ri) = true
   /\ spec_winners exc_classifier_id rf_regs (exc_request spec_params rf_W rf_ri 0%N) = [].
 Proof. vm_compute. repeat split; reflexivity. Qed.
+
+(* ------------------------------------------------------------------ *)
+(* overriding declarations: C03's override-tolerant lookup theorem (Proofs/C03_ov.v) instead of distinct keys *)
+Require Import Verif.Proofs.C03_ov.
+
+Lemma same_key_iff a b : same_key a b = true <-> key a = key b.
+Proof.
+  unfold same_key, key. rewrite andb_true_iff, slot_eqb_eq, text_eqb_eq. split.
+  - intros [-> ->]. reflexivity.
+  - intros H. inversion H. auto.
+Qed.
+
+(* the executable premise is sound for C03's key_order and key_faithful *)
+Lemma key_ok_sound regs : key_ok_b regs = true -> key_order regs /\ key_faithful regs.
+Proof.
+  unfold key_ok_b. intros H. rewrite forallb_forall in H.
+  assert (G : forall a b, In a regs -> In b regs -> key a = key b ->
+                          r_order a = r_order b /\ map pred_phash (r_preds a) = map pred_phash (r_preds b)).
+  { intros a b Ha Hb Hk. specialize (H a Ha). rewrite forallb_forall in H. specialize (H b Hb).
+    unfold key_pair_ok in H. apply same_key_iff in Hk. rewrite Hk in H. simpl in H.
+    apply andb_true_iff in H. destruct H as [H1 H2]. apply Z.eqb_eq in H1. apply texts_eqb_eq in H2. auto. }
+  split; intros a b Ha Hb Hk; apply (G a b Ha Hb Hk).
+Qed.
+
+Lemma order_respects_live regs : order_respects regs -> order_respects (live_regs regs).
+Proof. intros H a b Ha Hb. apply H; apply live_regs_in; assumption. Qed.
+
+(* the lookup premise of the judge theorem without distinct keys: a later declaration with the same slot and
+   predicates overrides the earlier one, in the registry and in the declarative order alike *)
+Lemma lookup_ok_overrides b ao regs W ri :
+  w_reg W = register_all ao regs ->
+  Forall reg_wf regs -> key_ok_b regs = true -> no_accept regs -> order_respects regs ->
+  (forall e, NoDup (q_req_sro (exc_request (spec_params_b b) W ri e))) ->
+  (forall e, NoDup (x_sro (find_exc (w_excs W) e))) ->
+  forall e, spec_ok exc_classifier_id regs (exc_request (spec_params_b b) W ri e)
+              (call_view (w_reg W) exc_classifier_id (exc_request (spec_params_b b) W ri e)) = true.
+Proof.
+  intros HR Hwf Hk Hna Hor Hrs Hcs e. rewrite HR. destruct (key_ok_sound regs Hk) as [Hko Hkf].
+  apply lookup_winner_overrides; auto; [apply Hcs|apply order_respects_live; exact Hor].
+Qed.
+
+(* ... for the registrations the directives produce: everything but the (computable) key check and the oracle
+   orders is discharged *)
+Theorem lookup_ok_regs_upto b ao P names nm user ph W ri :
+  w_reg W = register_all ao (regs_upto P names nm user ph) ->
+  (length names <= 20)%nat ->
+  Forall (fun d => a_accept (d_args d) = None) user ->
+  Forall (fun v => (n_preds v <= 400)%nat) (regs_upto P names nm user ph) ->
+  key_ok_b (regs_upto P names nm user ph) = true ->
+  (forall e, NoDup (q_req_sro (exc_request (spec_params_b b) W ri e))) ->
+  (forall e, NoDup (x_sro (find_exc (w_excs W) e))) ->
+  forall e, spec_ok exc_classifier_id (regs_upto P names nm user ph) (exc_request (spec_params_b b) W ri e)
+              (call_view (w_reg W) exc_classifier_id (exc_request (spec_params_b b) W ri e)) = true.
+Proof.
+  intros HR Hn Hacc Hk Hkey Hrs Hcs.
+  destruct (regs_upto_hyps P names nm user ph Hn Hacc Hk) as [Hwf [Hna Hor]].
+  apply (lookup_ok_overrides b ao); assumption.
+Qed.
+
+(* non-vacuity of the override case: the second declaration has the slot and predicates of the first; the key
+   check passes, keys are NOT distinct, and the later view renders *)
+Definition ov_decls : list vdecl :=
+  [mkDecl DExcView (Some 7%N) false true (mkArgs 1%N 0%N [] [] None false 3%N) 0%N (mkBody false ARet false);
+   mkDecl DExcView (Some 7%N) false true (mkArgs 1%N 0%N [] [] None false 4%N) 0%N (mkBody false ARet false);
+   mkDecl DView None false false (mkArgs 1%N 0%N [] [] None false 5%N) 0%N (mkBody false (ARaise 0%N) false)].
+Definition ov_regs : list reg := Eval vm_compute in regs_upto spec_params pred_names ex_nm ov_decls 0%N.
+Definition ov_W : world :=
+  mkWorld (register_all accept_order_default ov_regs) (bodies_of spec_params ex_nm ov_decls) ex_excs.
+
+Example lookup_ok_overrides_nonvacuous :
+  key_ok_b ov_regs = true /\ ~ NoDup (map key ov_regs)
+  /\ premises_b ov_regs ov_W ex_ri = true
+  /\ call_view (w_reg ov_W) exc_classifier_id (exc_request spec_params ov_W ex_ri 0%N) = Ran 4%N
+  /\ map r_tag (spec_winners exc_classifier_id ov_regs (exc_request spec_params ov_W ex_ri 0%N)) = [4%N].
+Proof.
+  split; [vm_compute; reflexivity|]. split.
+  - intros H. unfold ov_regs in H. simpl in H.
+    repeat match type of H with NoDup (?x :: ?l) =>
+      let Hn := fresh in let Hr := fresh in
+      inversion H as [|? ? Hn Hr]; subst; clear H;
+      try (exfalso; apply Hn; simpl; auto 10; fail); rename Hr into H end.
+  - vm_compute. repeat split; reflexivity.
+Qed.
